@@ -63,12 +63,15 @@ def one_run(kernel="rw", schedule="S1", seed=7, seedform="int", chains=3, multi=
         b.set_epochs([EpochConfig(EpochType.INITIAL_VALUES, 1, 1, None)]
                      + [EpochConfig(EpochType(t), d, k, None) for t, d, k in SCHEDULES[schedule]])
         if jitter:
-            def jit_fn(key, val):
-                out = val + jax.random.uniform(key, val.shape, val.dtype, -1.0, 1.0)
-                jax.debug.callback(lambda k, v, o: calls.append((np.asarray(k), np.asarray(v), np.asarray(o))),
-                                   key, val, out, ordered=False)
-                return out
-            b.set_jitter_fns({"x": jit_fn})
+            def make_jit(name):
+                def jit_fn(key, val):
+                    u = jax.random.uniform(key, val.shape, val.dtype, -1.0, 1.0)
+                    out = val + u if name == "x" else val * (2.0 + u)     # a different function per position key
+                    jax.debug.callback(lambda k, v, o: calls.append((name, np.asarray(k), np.asarray(v), np.asarray(o))),
+                                       key, val, out, ordered=False)
+                    return out
+                return jit_fn
+            b.set_jitter_fns({"x": make_jit("x"), "y": make_jit("y")})
         b.show_progress = False
         eng = b.build()
         eng.sample_all_epochs()
@@ -85,35 +88,35 @@ def one_run(kernel="rw", schedule="S1", seed=7, seedform="int", chains=3, multi=
             ev["digests"].append(h.hexdigest()[:20])
             ev["first"].append(fmt(np.asarray(samples["x"])[c, 0]) + "|" + fmt(np.asarray(samples["y"])[c, 0]))
         # expected first sample: supplied initial value after the configured jitter
-        keys_seen = []
+        def expected(name, c, v0):
+            if not jitter:
+                return v0
+            cand = []
+            for nm, k, v, o in calls:
+                if nm != name:
+                    continue
+                if k.ndim == 1:
+                    cand.append((k, v))
+                else:
+                    cand += [(k[i], v[i]) for i in range(k.shape[0])]
+            mine = [(k, v) for (k, v) in cand if np.array_equal(v, v0)]
+            k = mine[0][0] if (multi or len(set(inits)) > 1) and mine else (cand[c][0] if len(cand) > c else None)
+            if k is None:
+                return np.full_like(v0, np.nan)
+            keys_seen.setdefault(name, []).append(tuple(int(z) for z in k))
+            u = np.asarray(jax.random.uniform(jnp.asarray(k), v0.shape, jnp.float32, -1.0, 1.0))
+            return v0 + u if name == "x" else v0 * (np.float32(2.0) + u)
+
+        keys_seen = {}
         for c in range(chains):
             st = state_of(inits[c])
-            x0 = np.asarray(st["x"])
-            if jitter:
-                # find the recorded jitter call whose input value is chain c's supplied value
-                cand = []
-                for k, v, o in calls:
-                    if k.ndim == 1:
-                        cand.append((k, v, o))
-                    else:
-                        cand += [(k[i], v[i], o[i]) for i in range(k.shape[0])]
-                mine = [(k, v, o) for (k, v, o) in cand if np.array_equal(v, x0)]
-                if multi or len(set(inits)) > 1:
-                    k, v, o = mine[0]
-                else:
-                    k, v, o = cand[c] if len(cand) > c else (None, None, None)
-                keys_seen.append(tuple(int(z) for z in k))
-                exp = x0 + np.asarray(jax.random.uniform(jnp.asarray(k), x0.shape, jnp.float32, -1.0, 1.0))
-                ev["expect"].append(fmt(exp) + "|" + fmt(st["y"]))
-            else:
-                ev["expect"].append(fmt(x0) + "|" + fmt(st["y"]))
+            ev["expect"].append(fmt(expected("x", c, np.asarray(st["x"]))) + "|" + fmt(expected("y", c, np.asarray(st["y"]))))
         if jitter:
-            ev["jitter_keys_distinct"] = len(set(keys_seen)) == chains
-            if not (multi or len(set(inits)) > 1):
-                # with a replicated state the chain <-> call mapping is by position in the batch; accept any
-                # permutation: the multiset of expected values must match the multiset of first samples
-                if sorted(ev["expect"]) == sorted(ev["first"]):
-                    ev["expect"] = list(ev["first"])
+            ev["jitter_keys_distinct"] = all(len(set(v)) == chains for v in keys_seen.values()) and \
+                len(set(sum(keys_seen.values(), []))) == 2 * chains
+            if not (multi or len(set(inits)) > 1) and sorted(ev["expect"]) == sorted(ev["first"]):
+                # replicated state: chain <-> batch position is not claimed, compare as multisets
+                ev["expect"] = list(ev["first"])
     except Exception as ex:  # noqa: BLE001
         ev["crash"] = f"{type(ex).__name__}: {ex}"[:300]
     return ev
